@@ -391,6 +391,11 @@ MISC = {
     "number_slicer_too_few_intervals": _slicer(NumberOfIntervalsSlicer, (5,), {"min_n_points": 30, "min_n_intervals": 4}),
     "points_slicer_too_few_intervals": _slicer(PointsPerIntervalSlicer, (25,), {"min_n_points": 1, "min_n_intervals": 4}),
     "ew_unknown_weight_keyword": _ew_weights("quartic"),
+    **{f"ew_unknown_weight_keyword_{nm!r}": _ew_weights(nm) for nm in ("lin", "quad", "cub", "", " linear", "linearquadratic")},
+    **{f"width_slicer_unknown_reference_{nm!r}": _slicer(WidthOfIntervalSlicer, (1.0,), {"reference": nm, "min_n_points": 1})
+       for nm in ("centre", "cent", "", "l", "rights", "leftright")},
+    **{f"number_slicer_unknown_reference_{nm!r}": _slicer(NumberOfIntervalsSlicer, (3,), {"reference": nm, "min_n_points": 1})
+       for nm in ("centre", "cent", "", "l", "rights", "leftright")},
     "ew_scalar_weights": _ew_weights(2.0),
     "distribution_unknown_fit_method": _unknown_method_dist(),
     **{f"ew_unknown_fit_method_{nm!r}": _unknown_method_dist(nm, True) for nm in ("wls", "ls", "sq", "", "ml", "lsqq", "moments")},
